@@ -78,6 +78,35 @@ func newPitSys(strategy string, cs bool, fib string) *pitSys {
 			}
 		}
 	}
+	// consumer-chosen next hop (NextHopFaceId) on a face where it is enabled: the Interest is sent
+	// straight to that face, bypassing the strategy
+	add("I(f1,/a,n1,1s,nexthop=N2)", func(in *pitInst) {
+		nh := fwsim.N2
+		in.sim.Interest(fwsim.L1, fwsim.InterestSpec{Name: "/a", Nonce: fwsim.U32(1), Lifetime: fwsim.Dur(time.Second)}, fwsim.LP{NextHopFaceID: &nh})
+		k := entryKey("/a", false, false, "")
+		for _, e := range in.sim.Dump().Pit {
+			if entryKey(e.Name, e.CanBePrefix, e.MustBeFresh, e.Hint) == k {
+				if dl := in.sim.Now().Add(time.Second); dl.After(in.deadline[k]) {
+					in.deadline[k] = dl
+				}
+			}
+		}
+	})
+	// a burst of retransmissions with fresh nonces: every one moves the previous nonce to the dead
+	// nonce list, so >100 records fall due in the same reaper tick (the reaper removes <=100 per tick)
+	add("Burst(f1,/a/b,103 nonces,200ms)", func(in *pitInst) {
+		for i := 0; i < 103; i++ {
+			in.sim.Interest(fwsim.L1, fwsim.InterestSpec{Name: "/a/b", Nonce: fwsim.U32(uint32(1000 + i)), Lifetime: fwsim.Dur(200 * time.Millisecond)}, fwsim.LP{})
+		}
+		k := entryKey("/a/b", false, false, "")
+		for _, e := range in.sim.Dump().Pit {
+			if entryKey(e.Name, e.CanBePrefix, e.MustBeFresh, e.Hint) == k {
+				if dl := in.sim.Now().Add(200 * time.Millisecond); dl.After(in.deadline[k]) {
+					in.deadline[k] = dl
+				}
+			}
+		}
+	})
 	for _, name := range []string{"/a", "/a/b"} {
 		for _, tok := range []string{"none", "echo"} {
 			name, tok := name, tok
